@@ -37,8 +37,12 @@ type c05FlatArgs struct {
 
 func c05Load(files map[string]string, main, wd string) (out map[string]any, cls string) {
 	req := core.LoadReq{Files: files, ConfigFiles: []string{main}, WorkingDir: wd, ProjectName: "p"}
-	p, root, err := req.Load()
+	root, err := c05Materialize(files)
 	defer os.RemoveAll(root)
+	if err != nil {
+		return map[string]any{"err": err.Error()}, "err:materialize"
+	}
+	p, err := req.LoadIn(root)
 	if err != nil {
 		return map[string]any{"err": core.ScrubErr(err, root)}, "err:" + c05ErrClass(err)
 	}
@@ -631,6 +635,30 @@ func genRejects(ctx *core.Ctx) {
 					shape = "tail+" + shape
 				}
 				emit("cycle", fmt.Sprintf("len%d:%s:v%d", k, shape, variant), all, nil)
+			}
+		}
+	}
+	// ---- the main file referenced by its own absolute name ($ROOT is replaced when the tree is written): a chain that
+	// re-enters the main file at another service is acyclic and must resolve; re-entering at the same service is a cycle
+	absMain := "$ROOT/" + c05Main
+	for _, via := range []string{"proj/o.yaml", "proj/sub/p.yaml"} {
+		for variant := 0; variant < 2; variant++ {
+			back := "b"
+			if variant == 1 {
+				back = "a" // a@main → x@via → a@main: a genuine cycle
+			}
+			a := link(c05Node{File: c05Main, Name: "a", Attrs: img(0)}, c05Node{File: via, Name: "x"}, true)
+			b := c05Node{File: c05Main, Name: "b", Attrs: map[string]any{"image": "img-b", "hostname": "hb"}}
+			x := c05Node{File: via, Name: "x", Attrs: map[string]any{"cap_add": []any{"CAP_X"}}, HasRaw: true,
+				RawExt: map[string]any{"service": back, "file": absMain}}
+			t, main := buildTree([]c05Node{a, b, x})
+			ctx.Count("abs-main-reference")
+			ctx.Add("c05.apply", c05ApplyArgs{c05Tree: t, Dict: core.EncodeVal(main)})
+			ctx.Add("c05.order", c05ApplyArgs{c05Tree: t, Dict: core.EncodeVal(main)})
+			if variant == 1 {
+				ctx.Add("c05.reject", c05RejectArgs{c05Tree: t, Expect: "cycle", Shape: "abs-main:" + short[via]})
+			} else {
+				ctx.Add("c05.dep", c05DepArgs{c05Tree: t, Service: "a", Want: map[string]c05DepWant{}, Shape: "abs-main:" + short[via]})
 			}
 		}
 	}
